@@ -221,4 +221,5 @@ def run(ctx):
     ctx.cov["samples"] = [json.dumps(worlds[1]["ops"][:4])[:400] if len(worlds) > 1 else "", impl[worlds[1]["start"] + 2][:300] if len(worlds) > 1 else ""]
 
 
-REQUIRED_DEEP = []
+REQUIRED_DEEP = ["uniform_versions", "versions_consecutive", "versions_consecutive_monotone", "subject_unique", "all_or_nothing",
+                 "failed_commit_restores", "retry_enabled", "cfgNow_fixed"]
